@@ -16,8 +16,11 @@ use crate::{
 #[derive(Component, Default, Deserialize, Reflect, Serialize, Clone, PartialEq, Debug)]
 #[reflect(Component)]
 struct Ra(u8);
+/// Its reflected type path differs from the Rust type name.
 #[derive(Component, Default, Deserialize, Reflect, Serialize, Clone, PartialEq, Debug)]
 #[reflect(Component)]
+#[type_path = "game::components"]
+#[type_name = "Armor"]
 struct Rb(u8);
 /// Reflected, but the type is never registered in the type registry.
 #[derive(Component, Default, Deserialize, Reflect, Serialize, Clone, PartialEq, Debug)]
